@@ -14,6 +14,7 @@ import FastPasta.Model.Fsm
 import FastPasta.Model.Cdp
 import FastPasta.Spec.Diagram
 import FastPasta.Proofs.FsmTable
+import FastPasta.Proofs.FsmSrcTie
 namespace FastPasta
 namespace C09
 open DiagramGen
